@@ -287,6 +287,27 @@ def s1_discriminant():
                     yield 'disc/data_noempty/' + tag, en('E', [variant('A', 'Unnamed', unnamed(1, [['T']]), disc=p2[0]), variant('B', 'Named', named(2, [['T'], ['u8']]), disc=p2[1])], attrs)
                 if ptag in ('implicit', 'first'):
                     yield 'disc/fieldless/' + tag, en('E', [variant('A', 'Unnamed', []), variant('B', 'Named', [], [sub('default')]), variant('C')], uattrs)
+    # dense six-variant patterns: every implicit variant has explicit neighbours one below and one above its value, so that a
+    # miscounted `(expr) + k` collides with (or jumps over) another variant and shows in the ORDER, not only in the tokens
+    def lit(n):
+        return ([str(n)], n) if n >= 0 else (['-', str(-n)], n)
+    dense = [('dense_a', [None, None, 3, None, 5, 6]), ('dense_b', [10, None, 0, None, 2, 12]), ('dense_c', [None, 2, None, 4, None, 1]),
+             ('dense_d', [None, None, None, -4, None, -2]), ('dense_e', [7, None, 9, 1, None, 3])]
+    for dtag, pat in dense:
+        p6 = [None if x is None else lit(x) for x in pat]
+        for rs in (None, ['u8'], ['i64'], ['C', 'i16']):
+            if rs and any(r.startswith('u') for r in rs) and any(x is not None and x < 0 for x in pat):
+                continue
+            rtag = 'none' if rs is None else '_'.join(rs)
+            ra = [repr_attr(*rs)] if rs else []
+            for ts in (['PartialOrd', 'PartialEq'], ['Ord', 'PartialOrd', 'PartialEq', 'Eq'], ['PartialOrd', 'PartialEq', 'Clone'], ['PartialOrd', 'PartialEq', 'Clone', 'Copy']):
+                tag = '%s/%s/%s' % (rtag, dtag, '+'.join(ts))
+                names = 'ABCDEF'
+                if 'Ord' not in ts:
+                    yield 'disc/dense_unit_inc/' + tag, en('E', [variant(names[k], disc=p6[k]) for k in range(6)] + [variant('G', 'Unit', [], [sub('incomparable')])], ra + [dw(ts)])
+                yield 'disc/dense_unit/' + tag, en('E', [variant(names[k], 'Unit', [], [sub('default')] if k == 1 else [], disc=p6[k]) for k in range(6)], ra + [dw(ts + ['Default'])])
+                if rs is not None and 'Copy' not in ts:
+                    yield 'disc/dense_data/' + tag, en('E', [variant(names[k], *(('Unnamed', unnamed(1, [['T']])) if k in (0, 3) else ('Unit', [])), disc=p6[k]) for k in range(6)], ra + [dw(ts)])
     # several repr attributes, extremes
     D = [sub('default')]
     yield 'disc/two_repr_attrs', en('E', [variant('A', 'Unit', [], D), variant('B')], [repr_attr('C'), repr_attr('u16'), dw(['PartialOrd', 'Default'])])
